@@ -69,6 +69,10 @@ def run(ctx):
     # no accepting path of an entry point skips signature validation (shared with C01.5)
     from . import c01_effects
     c01_effects.entry_points_validate(ctx, "C05.2")
+    # "the verdict is the same whether or not a pairing cache is supplied": the cached verifier hands aggregate_verify_gt one
+    # factor per pair and nothing short-circuits it (shared with C15.5)
+    from . import c15
+    c15.c15_5(ctx, R="C05.5")
 
 
 def c05_1(ctx):
